@@ -397,7 +397,9 @@ def _check_predicate(R, h, hp, expr, line, tparams):
     ok = len(expr.args) == 2
     for a, x in zip(expr.args, tparams):
         t = U(a)
-        ok = ok and t in (f"{x}._data if isinstance({x}, QBytesTensor) else {x}", x, f"{x} if not isinstance({x}, QBytesTensor) else {x}._data")
+        isq = hp.fact(f"isinstance({x}, QBytesTensor)")
+        ok = ok and (t in (f"{x}._data if isinstance({x}, QBytesTensor) else {x}", f"{x} if not isinstance({x}, QBytesTensor) else {x}._data")
+                     or (t == f"{x}._data" and isq is True) or (t == x and isq is not True))
     R("C05", "C05.R4", "ok" if ok else "bad", h, line, "predicate operands", f"predicate `{U(expr)[:90]}` evaluates the op on each operand or its payload, in order: {ok}", "operands of different geometry")
 
 
@@ -521,7 +523,9 @@ def _check_ctor(repo, R, h: Handler, hp: HPath, f, line, tparams, ops):
             ax = U(f["axis"])
             flips = (f"0 if {x}.axis == -1 else -1", f"-1 if {x}.axis == 0 else 0", f"-1 if {x}.axis != -1 else 0", f"0 if {x}.axis != 0 else -1")
             per_axis = hp.fact(f"{x}.axis is None") is False
-            ok = ax in flips and per_axis and same_args
+            last, first = hp.fact(f"{x}.axis == -1"), hp.fact(f"{x}.axis == 0")
+            forked = (ax == "0" and (last is True or first is False)) or (ax == "-1" and (last is False or first is True))
+            ok = (ax in flips or forked) and per_axis and same_args
             R("C05", "C05.R4", "ok" if ok else "bad", h, line, "transpose co-moves scale and flips axis",
               f"2-D transpose of a per-axis tensor: scale transposed with the payload, axis={ax} (flip expected), per-axis path={per_axis}", "a per-axis quantized matrix (axis 0 <-> -1)")
             _c06_fields(R, h, hp, f, line, x, ops, reshaping=True, transposed=True)
